@@ -52,6 +52,17 @@ prop("C13", True,
      "Single faults only; fixed corpus; a read fault beyond the point where the reader legitimately stops (PFB end marker) is not required to surface.",
      "DESIGN.md section 6 C13", category="fault_enumeration")
 
+prop("C17", True,
+     "model checking with owned nondeterminism: an overlay rewrites every map iteration of the library so that the explorer chooses its order; deviation-bounded exhaustive search over iteration orders",
+     "Every range over a map and every maps.Keys/Values call in the library (13 sites, found and rewritten from the typed AST of the current tree at check time) iterates in an order chosen by the explorer: all n! orders for n<=4, rotations and adjacent swaps beyond, with <=3 (thorough 4) sites deviating from sorted order per execution. 56 workloads (font writes in all formats and WritePDF, metrics writes, font/metrics queries, ReadCMap with 1..3 CMaps per file, type1.Read of all containers, write+read cycles, a dictionary-copy program) must produce byte-identical observations in every execution. All orders are a superset of what the Go runtime can produce.",
+     "Only iteration sites in the repository's own packages are controlled (std lib trusted: text/template and fmt sort keys); a typed-AST inventory finds no clock/rand/unsafe/%p use; tools/instrument and go build -overlay trusted.",
+     "DESIGN.md section 6 C17")
+prop("C18", True,
+     "explicit-state search over histories of hostile programs with a reflective image of all package-level state; cooperative-scheduler exploration of goroutine interleavings (preemption-bounded) over a sync shim with vector-clock happens-before race detection",
+     "G1/G2: all sequences of <=2 (thorough 3) of 55 hostile programs (every container reachable from a fresh interpreter x mutating operators, StandardEncoding overwrites, all operators/CIDInit entries/error handlers redefined, failing half-way, hitting the budget, hostile fonts/CMaps through the readers) are run on throw-away instances; after each history the deep image of every package-level variable of the 8 packages and a probe workload on fresh instances must be unchanged, and the mutable heap nodes of two fresh interpreters and of the globals must be pairwise disjoint. G3: for 1025 scenarios of 2..3 goroutines calling the name-mapping functions from uninitialised tables, every interleaving at lock operations with <=2 (3) preemptions is executed on the real code under a cooperative scheduler; results must equal sequential results, no conflicting accesses unordered by happens-before, no deadlock.",
+     "Scheduler sees sync operations and hooked field/map accesses only (Go memory model below that not modelled); N goroutines argued from 2..3 plus G1/G2; std-lib-typed globals opaque; instrumentation generated by tools/instrument is trusted.",
+     "DESIGN.md section 6 C18")
+
 def main():
     checks, na = [], []
     props = [json.loads(l) for l in open(os.path.join(ROOT, "properties.jsonl"))]
